@@ -8,7 +8,7 @@ Record aobs := {
   ao_links : list (nat * nat * bool);              (* connected pairs (a, b); the flag marks a pair whose pubsub stream was reset while the connection stayed up *)
   ao_views : list (nat * list (topic * list nat))  (* node -> topic -> Topic/PubSub.ListPeers *)
 }.
-Definition ntopics : list topic := [0; 1].
+Definition ntopics : list topic := [0; 1; 2].
 Definition sees (o : aobs) (a : nat) (t : topic) (b : nat) : bool :=
   memb b (aget_l t (match aget a (ao_views o) with Some m => m | None => [] end)).
 Definition wants (o : aobs) (b : nat) (t : topic) : bool := memb t (aget_l b (ao_interest o)).
@@ -23,9 +23,15 @@ Definition mon_a (o : aobs) : nat :=
               negb (existsb (fun l => let '(x, y, _) := l in (Nat.eqb x (fst e) && Nat.eqb y b) || (Nat.eqb y (fst e) && Nat.eqb x b)) (ao_links o))) (snd te)) (snd e)) (ao_views o) then 54
   else 0.
 
-Fixpoint aexec (l : list aobs) (idx : nat) : verdict :=
+(* 53 is the class of a recorded finding: it is remembered and the scan goes on, so that it never hides a different
+   violation later in the same history *)
+Fixpoint aexec (l : list aobs) (idx : nat) (fnd : option nat) : verdict :=
   match l with
-  | [] => VOk
-  | o :: l' => match mon_a o with O => aexec l' (S idx) | c => VMonFail idx c end
+  | [] => match fnd with Some i => VMonFail i 53 | None => VOk end
+  | o :: l' => match mon_a o with
+               | O => aexec l' (S idx) fnd
+               | 53 => aexec l' (S idx) (match fnd with Some i => Some i | None => Some idx end)
+               | c => VMonFail idx c
+               end
   end.
-Definition check_acase (l : list aobs) : verdict := aexec l 0.
+Definition check_acase (l : list aobs) : verdict := aexec l 0 None.
